@@ -3,6 +3,7 @@
 //! `<cid>_<q|t>_<what>`: `q` harnesses form the quick tier, the thorough tier runs all.
 #![allow(unused, clippy::all, static_mut_refs)]
 #![recursion_limit = "1024"]
+#![cfg_attr(kani, feature(allocator_api))]
 pub mod util;
 mod probes;
 mod c00;
